@@ -12,14 +12,15 @@ PROPERTY = 'C15'
 LEVEL = 'exploration'
 TECH = 'model-based PBT: generated histories x every historical bound (at/before, raw tid/datetime) with live commits and packs while open'
 RULE = ('cases = generated histories through DB/Connection (changes, creations, removals from the root, un-creations by '
-        'undo) on FileStorage and MappingStorage with the harness clock; for EVERY transaction id t: at=t, at=t+1, before=t, '
-        'before=t+1, and datetime bounds between transactions; the historical connection is read, then live connections '
+        'undo) on FileStorage and MappingStorage, optionally continued in the changes of a DemoStorage wrapped around them, '
+        'optionally with an object in a second database of a multi-database, with the harness clock; for EVERY transaction id t: at=t, at=t+1, before=t, '
+        'before=t+1, and naive and timezone-aware datetime bounds between transactions; the historical connection is read, then live connections '
         'commit generated changes (and a pack to an earlier time runs), it is read again (also after cache minimize and '
         'after close + reopen from the historical pool); writes through it must fail and store nothing; bounds beyond the '
         'newest transaction must raise ValueError; evaluations = bounds checked; non-trivial = a bound strictly inside the '
         'history at which >= 1 object differs from its current state, re-read after a later commit; distinct by (case hash, bound)')
 ASSUMPTIONS = ['datetime bounds are chosen >= 100 ms away from any transaction time', 'bounds older than the last pack are not generated']
-BUDGET = {'quick': {'examples': 500, 'workers': 8},
+BUDGET = {'quick': {'examples': 800, 'workers': 8},
           'thorough': {'examples': 8000, 'workers': 16}}
 
 NAMES = ['a', 'b', 'c', 'd']
@@ -48,6 +49,9 @@ def strategy(tier):
         # UTC offset (minutes) of the timezone-aware datetime bounds
         # does a transaction writing both databases precede the bounds (both have the same newest tid)?
         'sync': st.booleans(),
+        # after this many operations the storage becomes the base of a DemoStorage and the history goes on
+        # in its changes (historical points then lie in the base's history, in the changes' or between)
+        'demo_at': st.sampled_from([None, None, None, 1, 2, 4]),
         'tz': st.sampled_from([-720, -300, -1, 0, 1, 60, 330, 840]),
     })
 
@@ -87,6 +91,17 @@ class Hist:
             self.conn.root()['x'] = x          # cross-database reference
             self.tm.commit()
             self.record({'root': ('x',)})
+
+    def wrap_in_demo(self):
+        import ZODB
+        from ZODB.DemoStorage import DemoStorage
+        self.tm.abort()
+        self.conn.close()
+        self.base_db = self.db          # (left open: closing it would close the base storage)
+        self.db = ZODB.DB(DemoStorage(base=self.db.storage), historical_pool_size=2)
+        self.conn = self.db.open(self.tm)
+        self.kind = 'demo-over-' + self.kind
+        clock.CLOCK.advance(1.0)
 
     def last_tid(self):
         t = self.db.storage.lastTransaction()
@@ -162,7 +177,7 @@ class Hist:
             # the object itself is not written: it stays in the storage, unreachable
             self.record({'root': tuple(sorted(set(cur['root']) - {name}))})
             return True
-        if k == 'undo' and self.kind == 'fs' and not self.multi:
+        if k == 'undo' and self.kind == 'fs' and not self.multi:      # (not after wrap_in_demo: kind changes)
             from ZODB.POSException import UndoError
             import base64
             log = self.db.undoLog(0, 10)
@@ -226,8 +241,17 @@ def execute(case):
     nt = []
     tz = datetime.timezone(datetime.timedelta(minutes=case.get('tz', 0)))
     try:
-        for op in [['create', 'a'], ['create', 'b']] + list(case['history']):
-            h.apply(op)
+        for i, op in enumerate([['create', 'a'], ['create', 'b']] + list(case['history'])):
+            if case.get('demo_at') is not None and not h.multi and i == 2 + case['demo_at']:
+                h.wrap_in_demo()
+                out.label('demo-over-base-with-history')
+            try:
+                h.apply(op)
+            except (KeyError, AttributeError) as e:
+                # the live connection itself does not show what the history model holds
+                out.fail((PROPERTY, 'live-connection', 'differs-from-model'),
+                         'applying %r on the live connection raised %r (model root: %r)' % (op, e, h.state().get('root')))
+                return done(out, nt)
         if case.get('sync'):
             h.sync()
         tids = [t[0] for t in h.txns]
@@ -294,7 +318,12 @@ def execute(case):
         cur_before = view(h.state())
         committed_later = False
         for op in list(case['later']) + ([['setx', 3]] if h.multi else []):
-            committed_later = h.apply(op) or committed_later
+            try:
+                committed_later = h.apply(op) or committed_later
+            except (KeyError, AttributeError) as e:
+                out.fail((PROPERTY, 'live-connection', 'differs-from-model'),
+                         'applying %r on the live connection raised %r (model root: %r)' % (op, e, h.state().get('root')))
+                return done(out, nt)
         if case['do_pack'] and len(tids) > 1:
             # pack to a time not later than the oldest bound still in use is outside the statement;
             # pack to before the first object transaction: removes nothing a bound needs
@@ -387,6 +416,8 @@ def execute(case):
             h.db.close()
             if h.db2 is not None:
                 h.db2.close()
+            if getattr(h, 'base_db', None) is not None:
+                h.base_db.close()
         except Exception:
             pass
     out.label(case['kind'], *(['multi-database', 'other-' + case['multi']] if case.get('multi') else []))
